@@ -64,13 +64,14 @@ func (proxy *multicastProxy) AddMember(m io.Closer) {
 			}
 		}
 
-		proxy.members = append(proxy.members, m)
 		proxy.cid = stream.StartConsume(proxy, media.RTPPacket,
 			"net = rtsp-multicast, "+proxy.multicastIP)
 		proxy.closed = false
 
 		proxy.logger.Info("multicast proxy started.")
 	}
+	// 每个成员都要登记：否则第一个成员离开时组播被停掉，流结束时其余成员也不会被关闭
+	proxy.members = append(proxy.members, m)
 }
 
 func (proxy *multicastProxy) ReleaseMember(m io.Closer) {
